@@ -781,6 +781,8 @@ pub enum Layout {
   NewlinesTabs,
   BlockComments,
   LineComments,
+  /// line comments ended by a carriage return alone and by carriage return + line feed
+  LineCommentsOtherBreaks,
   /// every white space character of the FEEL grammar (rules 61, 62) in turn, also before the first and after the last token
   EveryWhiteSpace,
   /// block comments of other shapes between all tokens: closed by `**/`, consisting of stars only, empty, with a star inside
@@ -858,6 +860,7 @@ pub fn join(toks: &[Tok], layout: Layout) -> String {
         Layout::NewlinesTabs => out.push_str(if i % 2 == 0 { "\n\t" } else { " \n" }),
         Layout::BlockComments => out.push_str(" /* c 1 + ( */ "),
         Layout::LineComments => out.push_str(" // c ) \"\n "),
+        Layout::LineCommentsOtherBreaks => out.push_str(if i % 2 == 0 { " // c ) \"\r " } else { " // c ) \"\r\n " }),
         Layout::CommentShapes => {
           // `/` and `*` are name symbols too: directly after a name a comment made of name characters only continues the
           // name (the grammar is ambiguous there), so those comments contain a `(`
